@@ -144,7 +144,7 @@ def cases(tier):
     depth = 2 if tier == "quick" else 3
     for d in range(1, depth + 1):
         for h in itertools.product(range(len(ops)), repeat=d):
-            if d == 3 and not ({"remove_pop", "remove_program", "reconcile05", "reconcile_b", "sample0", "remove_par"} & {ops[i] for i in h[:2]}):
+            if d == 3 and not ({"remove_pop", "remove_program", "remove_program_first", "reconcile05", "reconcile_b", "sample0", "remove_par"} & {ops[i] for i in h[:2]}):
                 continue
             yield dict(kind="history", hist=[ops[i] for i in h])
 
@@ -274,7 +274,7 @@ def run_rt_library(case):
 
 # ------------------------------------------------------------------ (b) edit histories
 
-OPS = ["copy", "add_pop", "remove_pop", "add_program", "remove_program", "add_par", "remove_par", "sample0", "reconcile_uc", "reconcile05", "reconcile_b", "reconcile_bo", "reconcile_ub", "loadcal_match", "loadcal_extra", "loadcal_missing"]
+OPS = ["copy", "add_pop", "remove_pop", "add_program", "remove_program", "remove_program_first", "add_par", "remove_par", "sample0", "reconcile_uc", "reconcile05", "reconcile_b", "reconcile_bo", "reconcile_ub", "loadcal_match", "loadcal_extra", "loadcal_missing"]
 
 
 class State:
@@ -346,10 +346,11 @@ def apply_op(st, op):
         year = float(np.asarray(st.progset.tvec).ravel()[0])  # a year of the program book's own time axis (values for other years are not part of the exported tables)
         p.spend_data.insert(year, 123.0)
         p.unit_cost.insert(year, 7.0)
-    elif op == "remove_program":
+    elif op in ("remove_program", "remove_program_first"):
+        # the last program, or the first one (which is the only program of one of the effects: that effect keeps its baseline and no program)
         if len(st.progset.programs) < 2:
             return vs
-        st.progset.remove_program(list(st.progset.programs)[-1])
+        st.progset.remove_program(list(st.progset.programs)[-1 if op == "remove_program" else 0])
     elif op == "add_par":
         if "dr" not in st.progset.pars:
             st.progset.add_par("dr", "P dr")
